@@ -137,18 +137,22 @@ package lexer
 //@ loop 1: invariant nolive: forall j int :: old(l.position) <= j && j < l.position ==> !livetag(l.input, old(l.position), j)
 //@ loop 1: decreases fuel(l)
 
-// C15: a token is stamped with the line on which it begins (tokstart = first non-blank byte);
-// after a # comment the stamp is that of the token that follows (not earlier than the comment).
+// C15: errors are reported against the line on which the tag containing the failing statement begins:
+// the token that opens a tag records its own line (1 + newlines before its first byte) in l.tagLine and
+// carries it; every other token inside a tag carries l.tagLine and leaves it unchanged; the end of the
+// input carries the line it is on (a line inside the tag when the input ends within it).
 //@ func (l *Lexer) nextInsideToken
 //@ requires linv(l) && l.inside
 //@ ensures start: lhtml(l)
 //@ ghost tokstart = l.position after skipWhitespace
 //@ ensures inv: lprogress(l)
 //@ ensures begins: old(l.position) <= tokstart && (forall j int :: old(l.position) <= j && j < tokstart ==> j < len(l.input) && blank(l.input[j]))
-//@ ensures stamp: !(tokstart < len(l.input) && l.input[tokstart] == '#') ==> result.LineNumber == 1 + nl(l.input, min(tokstart, len(l.input)))
-//@ ensures stampc: tokstart < len(l.input) && l.input[tokstart] == '#' ==> result.LineNumber >= 1 + nl(l.input, tokstart)
+//@ ensures opener: tagat(l.input, tokstart) ==> l.tagLine == 1 + nl(l.input, tokstart) && result.LineNumber == l.tagLine
+//@ ensures stamp: tokstart < len(l.input) && !tagat(l.input, tokstart) && l.input[tokstart] != '#' ==> l.tagLine == old(l.tagLine) && result.LineNumber == l.tagLine
+//@ ensures stampc: tokstart < len(l.input) && l.input[tokstart] == '#' ==> result.LineNumber == l.tagLine || result.Type == token.EOF
+//@ ensures eofline: tokstart >= len(l.input) ==> result.Type == token.EOF && l.tagLine == old(l.tagLine) && result.LineNumber == 1 + nl(l.input, len(l.input))
 //@ ensures progress: result.Type != token.EOF ==> fuel(l) < old(fuel(l))
-//@ assigns l.ch, l.position, l.readPosition, l.curLine, l.inside
+//@ assigns l.ch, l.position, l.readPosition, l.curLine, l.inside, l.tagLine
 //@ decreases fuel(l)
 //@ loop 1: invariant linv(l) && l.inside && l.input == old(l.input) && fuel(l) <= old(fuel(l))
 //@ loop 1: invariant after: tokstart <= l.position && tokstart < len(l.input) && l.input[tokstart] == '#'
@@ -160,4 +164,8 @@ package lexer
 //@ ensures start: lhtml(l)
 //@ ensures inv: lprogress(l)
 //@ ensures progress: result.Type != token.EOF ==> fuel(l) < old(fuel(l))
-//@ assigns l.ch, l.position, l.readPosition, l.curLine, l.inside
+// C15: literal text and the end of the input carry the line they are on and leave the tag line alone; a
+// tag that opens right here records its line (clause opener of nextInsideToken)
+//@ ensures textline: old(!l.inside) && !tagat(l.input, old(l.position)) ==> l.tagLine == old(l.tagLine)
+//@ ensures tagopens: old(!l.inside) && tagat(l.input, old(l.position)) ==> l.tagLine == 1 + nl(l.input, old(l.position)) && result.LineNumber == l.tagLine
+//@ assigns l.ch, l.position, l.readPosition, l.curLine, l.inside, l.tagLine
